@@ -427,11 +427,17 @@ class Engine(Executor):
         appends to local lists and (b) assignments to scalar locals.  The body is executed once for a generic element;
         scalars assigned in the body are havocked at the start of the generic iteration (sound over-approximation) and
         take their end-of-last-iteration value after the loop."""
-        if not (len(lt.segs) == 1 and isinstance(lt.segs[0], L.MapSeg) and lt.segs[0].body.is_concrete()
-                and len(lt.segs[0].body.segs) == 1):
+        if not (len(lt.segs) == 1 and isinstance(lt.segs[0], L.MapSeg) and len(lt.segs[0].body.segs) == 1):
             raise Unsupported("loop over a list term of this shape")
         seg = lt.segs[0]
-        elem = seg.body.segs[0].v
+        elem_guard = z3.BoolVal(True)  # the element at index ivar exists only under this guard (filtered lists)
+        b0 = seg.body.segs[0]
+        if isinstance(b0, L.Guard) and len(b0.lt.segs) == 1 and isinstance(b0.lt.segs[0], L.Unit):
+            elem_guard, elem = b0.cond, b0.lt.segs[0].v
+        elif isinstance(b0, L.Unit):
+            elem = b0.v
+        else:
+            raise Unsupported("loop over a list term of this shape")
         assigned = sorted(assigned_names(ast.Module(body=stmt.body, type_ignores=[])))
         accs = {}
         for n, v in st.frame.locals.items():
@@ -455,7 +461,7 @@ class Engine(Executor):
         accs = {n: r for n, r in accs.items() if not (isinstance(st.heap[r.oid], ListObj) and st.heap[r.oid].lt is lt)}
         base = st.fork()
         pc_len = len(base.pc)
-        base.assume(z3.And(seg.ivar >= 0, seg.ivar < seg.n))
+        base.assume(z3.And(seg.ivar >= 0, seg.ivar < seg.n, elem_guard))
         pre_vals = {}
         for n in assigned:
             if n in _names(stmt.target):
@@ -512,7 +518,10 @@ class Engine(Executor):
         for n, r in accs.items():
             if not per_acc[n]:
                 continue
-            added = L.LT([L.MapSeg(seg.ivar, seg.n, L.LT(per_acc[n]), "loop")])
+            inner = L.LT(per_acc[n])
+            if not z3.is_true(z3.simplify(elem_guard)):
+                inner = L.LT([L.Guard(elem_guard, inner)])
+            added = L.LT([L.MapSeg(seg.ivar, seg.n, inner, "loop")])
             o = st.heap[r.oid]
             if isinstance(o, DictObj):
                 o.tail = added if o.tail is None else o.tail.cat(added)
@@ -521,7 +530,7 @@ class Engine(Executor):
                 o.lt = o.lt.cat(added)
         out: List[Tuple[State, Ctl]] = []
         carried = [n for n in assigned if n not in _names(stmt.target) and _loop_carried(stmt.body, n)]
-        normal_guard = z3.Or(*[g for g, _ in finals]) if finals else z3.BoolVal(False)
+        normal_guard = z3.Or(z3.Not(elem_guard), *[g for g, _ in finals]) if finals else z3.Not(elem_guard)
         jv = self.fresh_const("earlier", z3.IntSort())
 
         def earlier_completed(upto):
